@@ -13,6 +13,7 @@ PHASE = ["build"]
 CURRENT = {"task": None, "step": 0}
 ALL_SOURCES = []  # every SimSource created in this run (including unpickled copies)
 ALL_FNS = []
+SERIAL = [0]
 
 
 def set_phase(p):
@@ -280,6 +281,10 @@ class SimTarget:
         self.nwrites = 0
         self.faults_fired = 0
         self.reads = 0
+        # a target is an identity (a file, a store): two targets never tokenize alike, or name-keyed
+        # dedup would hand one store the other's object.  Deterministic per run (reset in exec_case).
+        SERIAL[0] += 1
+        self.serial = SERIAL[0]
 
     def __setitem__(self, idx, value):
         reason = check_bounds(idx, self.shape, False)
@@ -305,7 +310,7 @@ class SimTarget:
         return np.array(self._a[idx])
 
     def __dask_tokenize__(self):
-        return ("SimTarget", self.name)
+        return ("SimTarget", self.name, self.serial)
 
 
 class RecFn:
@@ -360,3 +365,14 @@ FN_TABLE = {}
 
 def _rebuild_fn(name):
     return RecFn(FN_TABLE[name], name)
+
+
+GETTER_LOG = []
+
+
+def rec_getter(a, b, asarray=True, lock=None):
+    """A user-supplied getitem for from_array(getitem=...): records, then reads like the default."""
+    from dask_array._core_utils import getter
+
+    GETTER_LOG.append((PHASE[0], CURRENT["task"], idx_json(b), bool(lock)))
+    return getter(a, b, asarray=asarray, lock=lock)
